@@ -65,7 +65,10 @@ def norm_model(o):
             return [f(y) for y in x]
         if isinstance(x, dict):
             if "$float" in x:
-                return {"$float": repr(float(x["$float"]))}
+                try:
+                    return {"$float": repr(float(x["$float"]))}
+                except ValueError:                      # a token that is no float literal: a disagreement, not a crash
+                    return {"$float": "<not a float literal: %r>" % x["$float"]}
             if "$dict" in x:
                 return {"$dict": [[k, f(y)] for k, y in x["$dict"]]}
         return x
@@ -246,6 +249,9 @@ def gen_texts(rng, n):
 
 
 # ------------------------------------------------------------------------------------------------ comparison
+SURROGATE_ESCAPE = re.compile(r"\\u[dD][89a-fA-F][0-9a-fA-F]{2}")
+
+
 def compare_one(text, real, model):
     """None when model and CPython agree; otherwise a short reason"""
     m = norm_model(model)
@@ -254,6 +260,9 @@ def compare_one(text, real, model):
     if "lone" in real:
         return None if m == {"err": "Other"} else "cpython yields a lone surrogate, model must answer Other"
     if m == {"err": "Other"}:
+        # legitimate only at a surrogate escape (it is also the model's out-of-fuel answer, which must never show)
+        if not SURROGATE_ESCAPE.search(text):
+            return "model answers Other on a text without a surrogate escape"
         return None if "err" in real else "model answers Other on a text CPython reads without lone surrogates"
     if real != m:
         return "value" if ("ok" in real and "ok" in m) else "accept/reject"
